@@ -130,6 +130,7 @@ def run(ctx):
     shared.handover_order(ctx, '2')
     shared.wal_confinement(ctx, '3')
     shared.owner_id_removal(ctx, '3o')
+    shared.overlay_entries_replaced_whole(ctx, '3ow', MAPS=shared.COMMIT_OVERLAY_MAPS, what='commit', key=' commit-overlay-entries-replaced-whole', floor=2)
     shared.read_layering(ctx, '4')
     key_tail_check(ctx, '5')
     shared.file_reads_shadowed(ctx, '6')
